@@ -341,3 +341,95 @@ func onlyConditionalErrorReturns(info *types.Info, b *ast.BlockStmt) bool {
 	}
 	return true
 }
+
+// RuleOP1: an option closure must not put state it captured into the core: the
+// closure is created once and applied to many cores, so a captured map, slice or
+// pointer stored into a core field is shared by every parse that uses the option.
+func RuleOP1(c *Ctx) {
+	sc := c.Run.Begin("OP1", "an Option closure stores into the core only constants, scalars and values it allocates itself per application - never a map, slice or pointer captured from the option constructor (which would be shared by every parse using that option value)", 2)
+	defer sc.End()
+	pk := c.P.Pkg("core")
+	coreT := c.Named("core", "JApiCore")
+	if pk == nil || coreT == nil {
+		sc.Undecided("anchors", "-", "unresolved anchor: core.JApiCore")
+		return
+	}
+	info := pk.TypesInfo
+	c.P.Funcs(func(p *pkgT, fd *ast.FuncDecl) {
+		if p != pk || !isOptionCtor(info, fd) {
+			return
+		}
+		ast.Inspect(fd.Body, func(n ast.Node) bool {
+			lit, ok := n.(*ast.FuncLit)
+			if !ok {
+				return true
+			}
+			// the literal's *JApiCore parameter
+			var coreParam types.Object
+			for _, fl := range lit.Type.Params.List {
+				for _, nm := range fl.Names {
+					if pt, ok := info.TypeOf(fl.Type).(*types.Pointer); ok && types.Identical(pt.Elem(), coreT) {
+						coreParam = info.ObjectOf(nm)
+					}
+				}
+			}
+			if coreParam == nil {
+				return true
+			}
+			bad := ""
+			nStores := 0
+			ast.Inspect(lit.Body, func(x ast.Node) bool {
+				as, ok := x.(*ast.AssignStmt)
+				if !ok {
+					return true
+				}
+				for i, l := range as.Lhs {
+					if cfgx.RootObj(info, l) != coreParam || i >= len(as.Rhs) {
+						continue
+					}
+					nStores++
+					r := ast.Unparen(as.Rhs[i])
+					t := info.TypeOf(r)
+					if t == nil {
+						continue
+					}
+					switch t.Underlying().(type) {
+					case *types.Map, *types.Slice, *types.Pointer, *types.Chan, *types.Interface, *types.Signature:
+					default:
+						continue // scalars and structs are copied
+					}
+					// does the stored value alias a variable captured from outside the literal?
+					alias := r
+					if call, ok := r.(*ast.CallExpr); ok {
+						alias = nil
+						if id, ok := call.Fun.(*ast.Ident); ok && id.Name == "append" && len(call.Args) > 0 {
+							alias = call.Args[0]
+						}
+					}
+					if u, ok := alias.(*ast.UnaryExpr); ok && u.Op == token.AND {
+						alias = u.X
+					}
+					if _, isLit := alias.(*ast.CompositeLit); isLit || alias == nil {
+						continue
+					}
+					if obj, ok := cfgx.RootObj(info, alias).(*types.Var); ok && !obj.IsField() {
+						if obj.Pos() < lit.Pos() || obj.Pos() > lit.End() {
+							switch obj.Type().Underlying().(type) {
+							case *types.Map, *types.Slice, *types.Pointer, *types.Chan:
+								bad = fmt.Sprintf("%s = %s at %s stores the captured %s into the core", types.ExprString(l), types.ExprString(r), c.P.Pos(as.Pos()), obj.Type())
+							}
+						}
+					}
+				}
+				return true
+			})
+			key := c.P.DeclName(fd)
+			if bad == "" {
+				sc.Holds(key, c.P.Pos(lit.Pos()), fmt.Sprintf("%d stores into the core, none of a captured reference", nStores))
+			} else {
+				sc.Violation(key, c.P.Pos(lit.Pos()), bad+": the same map/slice is then shared (and mutated) by every core the option is applied to, so one parse's options leak into another")
+			}
+			return false
+		})
+	})
+}
